@@ -68,7 +68,9 @@ func indexValue(apiVersion, kind, name string) string {
 	// Another reason to ignore the error is that the IndexerFunc using this value to index the objects does not return
 	// an error, so we cannot bubble up the error here.
 	gr, _ := schema.ParseGroupVersion(apiVersion)
-	return fmt.Sprintf("%s.%s.%s", gr.Group, kind, name)
+	// Group, kind and name may all contain dots, but none of them can contain
+	// a slash, so a slash separated value identifies exactly one resource.
+	return fmt.Sprintf("%s/%s/%s", gr.Group, kind, name)
 }
 
 // SetupWebhookWithManager sets up the webhook with the manager.
